@@ -24,7 +24,7 @@ RULE = ("hostile connections: one hostile item (a mutated message or garbage) se
 ASSUMPTIONS = ["a peer that stalls forever mid-message on the single-threaded multiplex server without a timeout is documented behaviour; hostile clients always close (after <=50 ms)",
                "'still accepts / keeps receiving' = within a 10 s watchdog after the last hostile socket is closed",
                "BaseException-only exceptions (SystemExit ...) raised by methods are outside the statement ('Exception subclasses')"]
-REQUIRED_REACH = ["abandoned_streams_swept", "injected_yields", "hostile_connections", "witness_calls_ok", "post_attack_handshake_ok", "accounting_restored", "refused_by_full_pool", "error_replies_seen"]
+REQUIRED_REACH = ["abandoned_streams_swept", "injected_yields", "hostile_connections", "witness_calls_ok", "post_attack_handshake_ok", "accounting_restored", "refused_by_full_pool", "error_replies_seen", "stream_guess_phases_ok"]
 SHARD_TIMEOUT = {"quick": 240, "thorough": 3000}
 
 
@@ -101,6 +101,9 @@ def make_service(P):
                 yield 1
                 raise Unser("gen")
             return g()
+
+        def numbers(self, tag, n):
+            return ([tag, i] for i in range(n))       # a well-behaved client's own item stream
 
         # item streams a hostile client opens and then abandons (every kind of iterator a method may legally return)
         def stream_list(self):
@@ -358,6 +361,84 @@ def attack_one(fx, P, ser, phase, label, data, ending, stall, rec, cfgkey):
         c.close(rst=(ending == "rst"))
 
 
+def stream_guess_phase(fx, P, rec, cfgkey, pay):
+    """a hostile client tries to get at a well-behaved client's item stream by guessing its id: it opens a stream of its own just before and
+    just after the victim's, and asks for every id 'near' its own two (numeric neighbours; and, wherever its two ids differ in one field
+    only, every value of that field in between). None of its guesses may be answered with an item, and the victim receives its whole stream."""
+    import uuid
+    ser = P.serializers.serializers["serpent"]
+    rec.case(("stream-guess", cfgkey), nontrivial=True)
+    hc = wire.RawClient(fx.location, timeout=10.0)
+    vp = fx.proxy("svc", serializer="serpent", timeout=20.0)
+    it = None
+    saved_lifetime = P.config.ITER_STREAM_LIFETIME
+    P.config.ITER_STREAM_LIFETIME = 0.0          # (the victim's stream must not simply expire while the guesser is busy)
+    try:
+        if hc.handshake("svc", ser).type != wire.CONNECTOK:
+            rec.inconc("stream-guess phase: hostile client could not connect")
+            return
+
+        def open_own(tag):
+            m = hc.invoke("svc", "numbers", (tag, 3), {}, ser)
+            sid = bytes(dict(m.anns).get("STRM", b"")).decode()
+            return uuid.UUID(sid) if sid else None
+        vp._pyroBind()
+        a = open_own("hostileA")
+        it = vp.numbers("victim", 12)
+        b = open_own("hostileB")
+        got = [list(next(it)) for _ in range(3)]
+        if a is None or b is None:
+            rec.inconc("stream-guess phase: no stream id in the reply annotations")
+            return
+        guesses = []
+        for base in (a, b):
+            guesses += [uuid.UUID(int=(base.int + d) % (1 << 128)) for d in range(-40, 41) if d]
+        fa, fb = list(a.fields), list(b.fields)
+        for k in range(6):
+            if all(fa[j] == fb[j] for j in range(6) if j != k) and 0 < abs(fa[k] - fb[k]) <= 60000:
+                lo, hi = sorted((fa[k], fb[k]))
+                for v in range(lo + 1, hi):
+                    f = list(fa)
+                    f[k] = v
+                    guesses.append(uuid.UUID(fields=tuple(f)))
+        stolen = []
+        for g in guesses:
+            m = hc.invoke("Pyro.Daemon", "get_next_stream_item", (str(g),), {}, ser)
+            if not (m.flags & wire.F_EXC):
+                item = ser.loads(m.data)
+                if isinstance(item, (list, tuple)) and item and item[0] == "victim":
+                    stolen.append((str(g), list(item)))
+        rec.count("stream_ids_guessed", len(guesses))
+        rest_error = None
+        try:
+            for x in it:
+                got.append(list(x))
+        except Exception as x:
+            rest_error = x
+        want = [["victim", i] for i in range(12)]
+        if rest_error is not None and not stolen:
+            rec.inconc("stream-guess phase: the victim's stream ended with %r (stream lifetime %.1f s; %d guesses were made)" % (rest_error, P.config.ITER_STREAM_LIFETIME, len(guesses)))
+            return
+        if stolen:
+            rec.violation("foreign-stream-item-delivered-to-guesser", "a client that opened streams %s and %s and asked for %d ids near them was handed item(s) of another client's stream: %r; "
+                          "that client received %r" % (a, b, len(guesses), stolen[:3], [g[1] for g in got]), pay)
+        elif got != want:
+            rec.violation("witness-disturbed", "stream-guess phase: the well-behaved client's stream delivered %r" % ([g[1] for g in got],), pay)
+        else:
+            rec.count("stream_guess_phases_ok")
+    except Exception as x:
+        rec.inconc("stream-guess phase failed in the harness: %r" % (x,))
+    finally:
+        try:
+            if it is not None:
+                it.close()
+        except Exception:
+            pass
+        vp._pyroRelease()
+        hc.close()
+        P.config.ITER_STREAM_LIFETIME = saved_lifetime
+
+
 def run_config(P, cfg, rec, r, n_items):
     fx = fixture.Fixture(servertype=cfg["servertype"], unix=cfg.get("unix", False), COMMTIMEOUT=cfg["commtimeout"], THREADPOOL_SIZE=cfg["pool"], THREADPOOL_SIZE_MIN=2, ITER_STREAMING=True,
                          ITER_STREAM_LINGER=0.2, ITER_STREAM_LIFETIME=1.0)      # abandoned streams expire (housekeeping) while the attack is still going on
@@ -453,6 +534,7 @@ def run_config(P, cfg, rec, r, n_items):
                 rec.violation("request-loop-died", "request loop dead after the attack: %r" % (fx.loop_exc,), dict(pay, last=last))
             return
         rec.count("post_attack_handshake_ok")
+        stream_guess_phase(fx, P, rec, cfgkey, dict(pay, last=last))
         # streams that hostile clients opened and abandoned: the housekeeping pass that drops them has run before the verdict is taken
         opened = sum(1 for ph, lb in sent_log if "stream_" in lb)
         if opened:
